@@ -220,23 +220,38 @@ theorem registerGuarded_ok (ss : List (Str × Str)) (r : Reg) (sym name : Str) (
         obtain ⟨⟨q1, q2⟩, q3⟩ := hg2
         exact registerUnit_ok r1 _ _ c q1 q2 q3
 
-theorem registerRow_ok (sn ss : List (Str × Str)) (r : Reg) (c : Cur) : ∃ r', registerRow sn ss r c = .ok r' := by
+theorem registerRow_ok (nfkd : Str → Str) (sn ss : List (Str × Str)) (r : Reg) (c : Cur) :
+    ∃ r', registerRow nfkd sn ss r c = .ok r' := by
   unfold registerRow
   split
   · exact ⟨r, rfl⟩
-  · split
+  · simp only []
+    split
     · exact ⟨r, rfl⟩
     · exact registerGuarded_ok ss r _ _ c
 
-theorem registerAll_ok (sn ss : List (Str × Str)) : ∀ (t : Table) (r : Reg), ∃ r', registerAll sn ss r t = .ok r' := by
+theorem registerAll_ok (nfkd : Str → Str) (sn ss : List (Str × Str)) :
+    ∀ (t : Table) (r : Reg), ∃ r', registerAll nfkd sn ss r t = .ok r' := by
   intro t
   induction t with
   | nil => intro r; exact ⟨r, rfl⟩
   | cons c cs ih =>
     intro r
-    obtain ⟨r1, h1⟩ := registerRow_ok sn ss r c
+    obtain ⟨r1, h1⟩ := registerRow_ok nfkd sn ss r c
     simp only [registerAll, h1]
     exact ih r1
+
+/-! ## history -/
+
+theorem readlineLoadHistory_spec {G : Guards} (hG : caught (G .addHistory) .valueError = true) (ls : List Str) :
+    readlineLoadHistory G ls = .ok ((ls.map strip).filter (fun l => !l.contains 0)) := by
+  induction ls with
+  | nil => rfl
+  | cons l ls ih =>
+    unfold readlineLoadHistory
+    by_cases h : 0 ∈ strip l
+    · simp [h, hG, ih]
+    · simp [h, ih]
 
 /-! ## base currency -/
 
